@@ -305,6 +305,29 @@ Example C12_wss_alias_example :
 Proof. exact ex_wss_alias. Qed.
 Print Assumptions C12_wss_alias_example.
 
+(* Rule(build_only=True) (C12/Model.v: matchable, router_match_bo): such a rule is not given to the matcher and provides no
+   defaults, but MapAdapter.build sees it.  It never answers a request, and a defaults redirect is never built from it. *)
+Theorem C12_build_only_never_matches : forall bo mall a p me r vs,
+  router_match_bo bo mall a p me = Match r vs -> In r (m_rules mall) /\ bo (r_idx r) = false.
+Proof. exact build_only_never_matches. Qed.
+Print Assumptions C12_build_only_never_matches.
+
+Theorem C12_build_only_never_provides_defaults : forall bo mall a meth rule0 vals u,
+  get_default_redirect (matchable bo mall) a meth rule0 vals = BOk (Some u) ->
+  exists r dp, In r (m_rules mall) /\ bo (r_idx r) = false /\ provides_defaults_for r rule0 = true
+    /\ build_rule r (dict_update vals (r_defaults r)) = BOk dp /\ u = make_redirect_url (matchable bo mall) a (snd dp) (Some (fst dp)).
+Proof. exact build_only_never_provides_defaults. Qed.
+Print Assumptions C12_build_only_never_provides_defaults.
+
+(* Map([Rule('/', defaults={'x': 1}, build_only=True, endpoint=e), Rule('/g/<int:x>', endpoint=e)]): '/g/1' is answered, '/' is
+   NotFound; without build_only the same map redirects '/g/1' *)
+Example C12_build_only_example :
+  router_match_bo (fun i => i =? 5) (mk_map [cx_bo; cx_var]) ex_adapter [47; 103; 47; 49] GET = Match cx_var [(LX, VInt 1)]
+  /\ router_match_bo (fun i => i =? 5) (mk_map [cx_bo; cx_var]) ex_adapter [47] GET = NotFound
+  /\ exists u, router_match (mk_map [cx_bo; cx_var]) ex_adapter [47; 103; 47; 49] GET = RedirectTo u.
+Proof. exact ex_build_only. Qed.
+Print Assumptions C12_build_only_example.
+
 (* Rule.redirect_to with a string template (C12/Model.v: rt_subst, redirect_to_url, router_match_rt; the callable form is a
    user function and outside the model).  A rule with redirect_to answers with RequestRedirect to exactly the substituted
    target, after the defaults / alias canonicalisation; every other outcome is that of router_match. *)
